@@ -1,28 +1,43 @@
 package main
 
-// Translator table C02Patch (coq/Gen/C02Patch.v), regenerated from /repo/pkg/kube/client.go on every
-// check run: HOW kube.Client updates one live object — the decision structure of
-// updateResource / createPatch and the ARGUMENTS of the third-party calls, as source text:
+// Translator table C02Patch (coq/Gen/C02Patch.v), regenerated from /repo/pkg/kube on every check run: HOW
+// kube.Client updates one live object, read SEMANTICALLY.
 //
-// (calls are printed as ("function", ["argument"; ...]) pairs of source text)
-//   create_patch_rows     every `return patch, <type>, err` of createPatch with the conditions of the
-//                         enclosing ifs and the call that produced `patch`
-//   marshal_sources       which object each of oldData / newData / currentData is the JSON of
-//   current_obj_source    where createPatch gets the live object from
-//   update_resource_*     the --force branch (helper.Replace) and the patch branch of updateResource
-//   update_entries        Update / UpdateThreeWayMerge -> c.update(..., <threeWayMerge>)
-//   update_calls          in update(): where the "original" of a target comes from and what is passed on
+// updateResource is evaluated symbolically (c02Eval below) once for each of the 8 combinations of
+//   force  x  "the target is unstructured or a CRD"  x  threeWayMergeForUnstructured
+// on the path where no call returns an error.  Same-package functions that (transitively) talk to the
+// cluster are inlined (createPatch, any helper a refactoring introduces); everything else is opaque.  The
+// result per combination is the list of TRACES (one per data-dependent fork: "the patch is empty" or not),
+// each the sequence of cluster calls with the ROLES of their arguments:
+//   PGetLive                          helper.Get(target.Namespace, target.Name)
+//   PReplace ow obj                   helper.Replace(target.Namespace, target.Name, ow, obj)
+//   PPatch lib args extra ptype       helper.Patch(target.Namespace, target.Name, ptype, lib(args..., extra...), nil)
+//                                     args = the documents whose JSON (json.Marshal) the library call is given
+//   PTargetGet / PRefresh from        target.Get() / target.Refresh(<result of replace | patch>, true)
+//   PBranch "patch-empty" b           the fork on `patch == nil || string(patch) == "{}"` (any spelling)
+//   PUnknown text                     something the evaluator does not understand (no obligation accepts it)
+// Values: SParam n path = a field of the n-th parameter of updateResource (SParam 1 "Object" = target.Object,
+// SParam 2 "" = the object update() passes as the "original"), SLive = what helper.Get returned.
+// The table does not depend on if/else versus early return, on duplicated trailing statements, on variable
+// names and scopes, or on code being moved into same-package helpers.
 //
-// coq/Engine/PatchTable.v interprets the table (which way of updating for which kind and flags, with
-// which documents in which role) and Props/C02.v proves it equal to the model's mode_of / merge_by on all
-// flag combinations.  Trusted: the reading of the four library calls in PatchTable.v.
+// For update(): the arguments of its updateResource call with once-defined locals replaced by their
+// definitions (update_call), the visitor it runs in (update_visitor), and how Update / UpdateThreeWayMerge
+// call update (update_entries).
+//
+// coq/Engine/PatchTable.v turns the traces into "which library call with which documents in which role" and
+// Props/C02.v proves that equal to the model's mode_of / merge_by on all combinations.
 
 import (
 	"bytes"
 	"fmt"
 	"go/ast"
+	"go/parser"
 	"go/printer"
 	"go/token"
+	"os"
+	"path/filepath"
+	"sort"
 	"strings"
 
 	"verif/harness/internal/hx"
@@ -35,6 +50,554 @@ func c02Src(fset *token.FileSet, n ast.Node) string {
 	printer.Fprint(&b, fset, n)
 	return strings.Join(strings.Fields(b.String()), " ")
 }
+
+// ---------- symbolic values ----------
+
+type c02V struct {
+	K     string // param live json patchval ptype helper resp nil bool empty str opaque
+	N     int    // param: index
+	Path  string // param: field path; ptype / resp / str: name
+	Lib   string
+	Args  []c02V   // patchval: documents; json: the marshalled value
+	Extra []string // patchval: the other arguments (literals as text, anything else "_")
+	B     bool
+}
+
+func (v c02V) coq() string {
+	switch v.K {
+	case "param":
+		return fmt.Sprintf("(SParam %d %s)", v.N, hx.CoqStr(v.Path))
+	case "live":
+		return "SLive"
+	}
+	return "(SOther " + hx.CoqStr(v.K+":"+v.Path) + ")"
+}
+
+var c02Opaque = c02V{K: "opaque"}
+
+type c02State struct {
+	env   map[string]c02V
+	trace []string // Gallina terms of type pev
+}
+
+func (s *c02State) fork() *c02State {
+	n := &c02State{env: map[string]c02V{}, trace: append([]string{}, s.trace...)}
+	for k, v := range s.env {
+		n.env[k] = v
+	}
+	return n
+}
+
+func (s *c02State) emit(ev string) { s.trace = append(s.trace, ev) }
+
+type c02Out struct {
+	st  *c02State
+	ret bool
+	val []c02V
+}
+
+type c02Evaluator struct {
+	fset      *token.FileSet
+	funcs     map[string]*ast.FuncDecl
+	effectful map[string]bool
+	unstr     bool // the valuation of "target is unstructured / a CRD"
+	depth     int
+}
+
+// effect methods: calls that reach the API server when made on a resource.Helper / *resource.Info
+var c02EffectMethods = map[string]bool{"Replace": true, "Patch": true, "Get": true, "Create": true, "Delete": true,
+	"DeleteWithOptions": true, "Refresh": true}
+
+func (e *c02Evaluator) computeEffectful() {
+	e.effectful = map[string]bool{}
+	direct := func(fd *ast.FuncDecl) bool {
+		found := false
+		ast.Inspect(fd.Body, func(n ast.Node) bool {
+			if c, ok := n.(*ast.CallExpr); ok {
+				if sel, ok := c.Fun.(*ast.SelectorExpr); ok && c02EffectMethods[sel.Sel.Name] {
+					found = true
+				}
+			}
+			return !found
+		})
+		return found
+	}
+	for n, fd := range e.funcs {
+		if fd.Body != nil && fd.Recv == nil && direct(fd) {
+			e.effectful[n] = true
+		}
+	}
+	for changed := true; changed; {
+		changed = false
+		for n, fd := range e.funcs {
+			if e.effectful[n] || fd.Body == nil || fd.Recv != nil {
+				continue
+			}
+			ast.Inspect(fd.Body, func(x ast.Node) bool {
+				if c, ok := x.(*ast.CallExpr); ok {
+					if id, ok := c.Fun.(*ast.Ident); ok && e.effectful[id.Name] {
+						e.effectful[n] = true
+						changed = true
+					}
+				}
+				return true
+			})
+		}
+	}
+}
+
+func isTargetNsName(a, b c02V) bool {
+	return a.K == "param" && a.N == 1 && a.Path == "Namespace" && b.K == "param" && b.N == 1 && b.Path == "Name"
+}
+
+func litText(v c02V) string {
+	switch v.K {
+	case "bool":
+		if v.B {
+			return "true"
+		}
+		return "false"
+	case "nil":
+		return "nil"
+	case "str":
+		return v.Path
+	}
+	return "_"
+}
+
+// call evaluates a call expression; results are the call's result tuple.
+func (e *c02Evaluator) call(s *c02State, c *ast.CallExpr) []c02V {
+	var args []c02V
+	evalArgs := func() {
+		for _, a := range c.Args {
+			args = append(args, e.expr1(s, a))
+		}
+	}
+	switch fn := c.Fun.(type) {
+	case *ast.Ident:
+		switch fn.Name {
+		case "string", "len":
+			evalArgs()
+			if len(args) == 1 {
+				if fn.Name == "len" && args[0].K == "patchval" {
+					return []c02V{{K: "lenof", Args: args}}
+				}
+				return args
+			}
+			return []c02V{c02Opaque}
+		}
+		if fd, ok := e.funcs[fn.Name]; ok && e.effectful[fn.Name] && e.depth < 6 {
+			evalArgs()
+			return e.inline(s, fd, args)
+		}
+		evalArgs()
+		return []c02V{c02Opaque, {K: "nil"}}
+	case *ast.SelectorExpr:
+		// package-qualified function?
+		if id, ok := fn.X.(*ast.Ident); ok {
+			if _, bound := s.env[id.Name]; !bound {
+				evalArgs()
+				full := id.Name + "." + fn.Sel.Name
+				if full == "json.Marshal" && len(args) == 1 {
+					return []c02V{{K: "json", Args: args}, {K: "nil"}}
+				}
+				if full == "resource.NewHelper" {
+					return []c02V{{K: "helper"}}
+				}
+				if full == "bytes.Equal" && len(args) == 2 {
+					for i := range args {
+						if args[i].K == "patchval" && args[1-i].K == "str" && args[1-i].Path == "{}" {
+							return []c02V{{K: "empty"}}
+						}
+					}
+				}
+				// a library call that is handed marshalled documents computes the patch
+				docs, extra := []c02V{}, []string{}
+				for i, a := range args {
+					if a.K == "json" {
+						docs = append(docs, a.Args[0])
+					} else {
+						t := litText(a)
+						if i == len(args)-1 && c.Ellipsis.IsValid() {
+							t = "_"
+						}
+						extra = append(extra, t)
+					}
+				}
+				if len(docs) > 0 {
+					return []c02V{{K: "patchval", Lib: full, Args: docs, Extra: extra}, {K: "nil"}}
+				}
+				return []c02V{c02Opaque, {K: "nil"}}
+			}
+		}
+		recv := e.expr1(s, fn.X)
+		evalArgs()
+		m := fn.Sel.Name
+		switch {
+		case recv.K == "helper" && strings.HasPrefix(m, "With"):
+			return []c02V{recv}
+		case recv.K == "helper" && m == "Get" && len(args) == 2 && isTargetNsName(args[0], args[1]):
+			s.emit("PGetLive")
+			return []c02V{{K: "live"}, {K: "nil"}}
+		case recv.K == "helper" && m == "Replace" && len(args) == 4 && isTargetNsName(args[0], args[1]):
+			s.emit(fmt.Sprintf("PReplace %s %s", hx.CoqStr(litText(args[2])), args[3].coq()))
+			return []c02V{{K: "resp", Path: "replace"}, {K: "nil"}}
+		case recv.K == "helper" && m == "Patch" && len(args) == 5 && isTargetNsName(args[0], args[1]) && args[3].K == "patchval" && litText(args[4]) == "nil":
+			pv := args[3]
+			docs := make([]string, len(pv.Args))
+			for i, d := range pv.Args {
+				docs[i] = d.coq()
+			}
+			pt := "?"
+			if args[2].K == "ptype" {
+				pt = args[2].Path
+			}
+			s.emit(fmt.Sprintf("PPatch %s %s %s %s", hx.CoqStr(pv.Lib), hx.CoqList(docs), hx.CoqStrList(pv.Extra), hx.CoqStr(pt)))
+			return []c02V{{K: "resp", Path: "patch"}, {K: "nil"}}
+		case recv.K == "helper":
+			s.emit("PUnknown " + hx.CoqStr(c02Src(e.fset, c)))
+			return []c02V{c02Opaque, {K: "nil"}}
+		case recv.K == "param" && recv.N == 1 && recv.Path == "" && m == "Get" && len(args) == 0:
+			s.emit("PTargetGet")
+			return []c02V{{K: "nil"}}
+		case recv.K == "param" && recv.N == 1 && recv.Path == "" && m == "Refresh" && len(args) == 2 && args[0].K == "resp":
+			s.emit("PRefresh " + hx.CoqStr(args[0].Path))
+			return []c02V{{K: "nil"}}
+		case recv.K == "param" && recv.N == 1 && recv.Path == "" && c02EffectMethods[m]:
+			s.emit("PUnknown " + hx.CoqStr(c02Src(e.fset, c)))
+			return []c02V{c02Opaque, {K: "nil"}}
+		}
+		return []c02V{c02Opaque, {K: "nil"}}
+	}
+	evalArgs()
+	if _, conv := c.Fun.(*ast.ArrayType); conv && len(args) == 1 {
+		return args // a conversion such as []byte("{}")
+	}
+	return []c02V{c02Opaque, {K: "nil"}}
+}
+
+func (e *c02Evaluator) inline(s *c02State, fd *ast.FuncDecl, args []c02V) []c02V {
+	saved := s.env
+	env := map[string]c02V{}
+	i := 0
+	for _, fl := range fd.Type.Params.List {
+		for _, n := range fl.Names {
+			if i < len(args) {
+				env[n.Name] = args[i]
+			}
+			i++
+		}
+	}
+	s.env = env
+	e.depth++
+	outs := e.block(s, fd.Body.List)
+	e.depth--
+	// an inlined helper must not fork (the forks of interest are in updateResource itself); take the outcomes in
+	// order and continue with the first returning one, marking disagreement
+	var res []c02V
+	if len(outs) != 1 {
+		// forks inside a helper: merge is not possible in general
+		s.trace = append(outs[0].st.trace, "PUnknown "+hx.CoqStr("fork inside "+fd.Name.Name))
+	} else {
+		s.trace = outs[0].st.trace
+	}
+	res = outs[0].val
+	s.env = saved
+	if res == nil {
+		res = []c02V{c02Opaque, {K: "nil"}}
+	}
+	return res
+}
+
+func (e *c02Evaluator) expr1(s *c02State, x ast.Expr) c02V {
+	vs := e.expr(s, x)
+	if len(vs) == 0 {
+		return c02Opaque
+	}
+	return vs[0]
+}
+
+func (e *c02Evaluator) expr(s *c02State, x ast.Expr) []c02V {
+	switch t := x.(type) {
+	case *ast.Ident:
+		switch t.Name {
+		case "nil":
+			return []c02V{{K: "nil"}}
+		case "true":
+			return []c02V{{K: "bool", B: true}}
+		case "false":
+			return []c02V{{K: "bool", B: false}}
+		}
+		if v, ok := s.env[t.Name]; ok {
+			return []c02V{v}
+		}
+		return []c02V{c02Opaque}
+	case *ast.BasicLit:
+		if sv, ok := strLit(t); ok {
+			return []c02V{{K: "str", Path: sv}}
+		}
+		return []c02V{{K: "str", Path: t.Value}}
+	case *ast.ParenExpr:
+		return e.expr(s, t.X)
+	case *ast.SelectorExpr:
+		if id, ok := t.X.(*ast.Ident); ok {
+			if _, bound := s.env[id.Name]; !bound {
+				if id.Name == "types" {
+					return []c02V{{K: "ptype", Path: "types." + t.Sel.Name}}
+				}
+				return []c02V{c02Opaque}
+			}
+		}
+		r := e.expr1(s, t.X)
+		if r.K == "param" {
+			p := t.Sel.Name
+			if r.Path != "" {
+				p = r.Path + "." + p
+			}
+			return []c02V{{K: "param", N: r.N, Path: p}}
+		}
+		return []c02V{c02Opaque}
+	case *ast.CallExpr:
+		return e.call(s, t)
+	case *ast.CompositeLit:
+		// []byte("{}") and the like
+		return []c02V{c02Opaque}
+	case *ast.TypeAssertExpr:
+		txt := c02Src(e.fset, t.Type)
+		flag := c02V{K: "bool", B: false}
+		if strings.Contains(txt, "Unstructured") || strings.Contains(txt, "CustomResourceDefinition") {
+			flag = c02V{K: "bool", B: e.unstr}
+		} else {
+			flag = c02Opaque
+		}
+		return []c02V{c02Opaque, flag}
+	case *ast.UnaryExpr, *ast.BinaryExpr:
+		if b, known := e.cond(s, x); known == "bool" {
+			return []c02V{{K: "bool", B: b}}
+		} else if known == "empty" {
+			return []c02V{{K: "empty"}}
+		}
+		return []c02V{c02Opaque}
+	}
+	return []c02V{c02Opaque}
+}
+
+// cond: ("bool", b) decided; ("empty", _) the patch-is-empty test; ("?", _) unknown
+func (e *c02Evaluator) cond(s *c02State, x ast.Expr) (bool, string) {
+	switch t := x.(type) {
+	case *ast.ParenExpr:
+		return e.cond(s, t.X)
+	case *ast.UnaryExpr:
+		if t.Op == token.NOT {
+			b, k := e.cond(s, t.X)
+			if k == "bool" {
+				return !b, "bool"
+			}
+			return false, "?"
+		}
+	case *ast.BinaryExpr:
+		switch t.Op {
+		case token.LOR, token.LAND:
+			lb, lk := e.cond(s, t.X)
+			// short circuit decided by the left side
+			if lk == "bool" && lb == (t.Op == token.LOR) {
+				return lb, "bool"
+			}
+			rb, rk := e.cond(s, t.Y)
+			if lk == "bool" {
+				return rb, rk
+			}
+			if rk == "bool" && rb == (t.Op == token.LOR) {
+				return rb, "bool"
+			}
+			if lk == "empty" && (rk == "empty" || rk == "bool") && t.Op == token.LOR {
+				return false, "empty"
+			}
+			return false, "?"
+		case token.EQL, token.NEQ:
+			l, r := e.expr1(s, t.X), e.expr1(s, t.Y)
+			eq := t.Op == token.EQL
+			for i := 0; i < 2; i++ {
+				a, b := l, r
+				if i == 1 {
+					a, b = r, l
+				}
+				switch {
+				case a.K == "nil" && b.K == "nil":
+					return eq, "bool"
+				case a.K == "patchval" && (b.K == "nil" || b.K == "str" && b.Path == "{}"):
+					if eq {
+						return false, "empty"
+					}
+					return false, "?"
+				case a.K == "lenof" && b.K == "str" && b.Path == "0":
+					if eq {
+						return false, "empty"
+					}
+					return false, "?"
+				case a.K == "bool" && b.K == "bool":
+					return (a.B == b.B) == eq, "bool"
+				}
+			}
+			return false, "?"
+		}
+	}
+	v := e.expr1(s, x)
+	switch v.K {
+	case "bool":
+		return v.B, "bool"
+	case "empty":
+		return false, "empty"
+	}
+	return false, "?"
+}
+
+func (e *c02Evaluator) assign(s *c02State, lhs []ast.Expr, rhs []ast.Expr) {
+	var vals []c02V
+	if len(rhs) == 1 {
+		vals = e.expr(s, rhs[0])
+	} else {
+		for _, r := range rhs {
+			vals = append(vals, e.expr1(s, r))
+		}
+	}
+	// a call returning (value, error) on the no-error path: the last result of a multi-value call is nil
+	for i, l := range lhs {
+		id, ok := l.(*ast.Ident)
+		if !ok || id.Name == "_" {
+			continue
+		}
+		switch {
+		case i < len(vals):
+			s.env[id.Name] = vals[i]
+		case i == len(lhs)-1 && len(lhs) > 1:
+			s.env[id.Name] = c02V{K: "nil"}
+		default:
+			s.env[id.Name] = c02Opaque
+		}
+	}
+	// `a, b, err := f()` where f's tuple was shorter than the left side: the error is nil on this path
+	if len(lhs) > 1 && len(rhs) == 1 {
+		if id, ok := lhs[len(lhs)-1].(*ast.Ident); ok && id.Name != "_" {
+			if len(vals) < len(lhs) || vals[len(lhs)-1].K == "opaque" {
+				if _, isAssert := rhs[0].(*ast.TypeAssertExpr); !isAssert {
+					s.env[id.Name] = c02V{K: "nil"}
+				}
+			}
+		}
+	}
+}
+
+func (e *c02Evaluator) hasEffects(n ast.Node) bool {
+	found := false
+	ast.Inspect(n, func(x ast.Node) bool {
+		switch t := x.(type) {
+		case *ast.CallExpr:
+			if sel, ok := t.Fun.(*ast.SelectorExpr); ok && c02EffectMethods[sel.Sel.Name] {
+				found = true
+			}
+			if id, ok := t.Fun.(*ast.Ident); ok && e.effectful[id.Name] {
+				found = true
+			}
+		case *ast.ReturnStmt:
+			found = true
+		}
+		return !found
+	})
+	return found
+}
+
+func (e *c02Evaluator) block(s *c02State, stmts []ast.Stmt) []c02Out {
+	if len(stmts) == 0 {
+		return []c02Out{{st: s}}
+	}
+	var outs []c02Out
+	for _, o := range e.stmt(s, stmts[0]) {
+		if o.ret {
+			outs = append(outs, o)
+		} else {
+			outs = append(outs, e.block(o.st, stmts[1:])...)
+		}
+	}
+	return outs
+}
+
+func (e *c02Evaluator) stmt(s *c02State, st ast.Stmt) []c02Out {
+	switch t := st.(type) {
+	case *ast.AssignStmt:
+		e.assign(s, t.Lhs, t.Rhs)
+	case *ast.DeclStmt:
+		if gd, ok := t.Decl.(*ast.GenDecl); ok && gd.Tok == token.VAR {
+			for _, sp := range gd.Specs {
+				vs := sp.(*ast.ValueSpec)
+				if len(vs.Values) > 0 {
+					lhs := make([]ast.Expr, len(vs.Names))
+					for i, n := range vs.Names {
+						lhs[i] = n
+					}
+					e.assign(s, lhs, vs.Values)
+				} else {
+					for _, n := range vs.Names {
+						s.env[n.Name] = c02V{K: "nil"}
+					}
+				}
+			}
+		}
+	case *ast.ExprStmt:
+		e.expr(s, t.X)
+	case *ast.BlockStmt:
+		return e.block(s, t.List)
+	case *ast.ReturnStmt:
+		var vals []c02V
+		if len(t.Results) == 1 {
+			vals = e.expr(s, t.Results[0])
+		} else {
+			for _, r := range t.Results {
+				vals = append(vals, e.expr1(s, r))
+			}
+		}
+		return []c02Out{{st: s, ret: true, val: vals}}
+	case *ast.IfStmt:
+		if t.Init != nil {
+			for _, o := range e.stmt(s, t.Init) {
+				_ = o
+			}
+		}
+		b, k := e.cond(s, t.Cond)
+		run := func(st *c02State, which bool) []c02Out {
+			if which {
+				return e.block(st, t.Body.List)
+			}
+			if t.Else != nil {
+				return e.stmt(st, t.Else)
+			}
+			return []c02Out{{st: st}}
+		}
+		switch k {
+		case "bool":
+			return run(s, b)
+		case "empty":
+			s1, s2 := s.fork(), s.fork()
+			s1.emit(`PBranch "patch-empty" true`)
+			s2.emit(`PBranch "patch-empty" false`)
+			return append(run(s1, true), run(s2, false)...)
+		default:
+			if !e.hasEffects(t) {
+				return []c02Out{{st: s}}
+			}
+			s.emit("PUnknown " + hx.CoqStr("if "+c02Src(e.fset, t.Cond)))
+			s1, s2 := s.fork(), s.fork()
+			return append(run(s1, true), run(s2, false)...)
+		}
+	default:
+		if e.hasEffects(st) {
+			s.emit("PUnknown " + hx.CoqStr(strings.SplitN(c02Src(e.fset, st), "{", 2)[0]))
+		}
+	}
+	return []c02Out{{st: s}}
+}
+
+// ---------- update(): the call of updateResource with locals resolved ----------
 
 func c02Func(f *ast.File, name string) *ast.FuncDecl {
 	for _, d := range f.Decls {
@@ -55,183 +618,168 @@ func c02Params(fd *ast.FuncDecl) []string {
 	return out
 }
 
-type c02Row struct {
-	Conds []string
-	Call  string // Gallina pair (function, [arguments])
-	Type  string
-}
-
-// c02Call prints a call as the Gallina pair ("f", ["arg1"; ...]) of source texts.
-func c02Call(fset *token.FileSet, c *ast.CallExpr) string {
-	args := make([]string, len(c.Args))
-	for i, a := range c.Args {
-		args[i] = c02Src(fset, a)
-		if i == len(c.Args)-1 && c.Ellipsis.IsValid() {
-			args[i] += "..."
-		}
-	}
-	return hx.CoqPair(hx.CoqStr(c02Src(fset, c.Fun)), hx.CoqStrList(args))
-}
-
-const c02NoCall = `("", [])`
-
-// a condition that is a local boolean defined once as `x := a || b` (or &&, !) is printed as its definition
-var c02CondDefs = map[string]string{}
-
-func c02CollectCondDefs(fset *token.FileSet, body *ast.BlockStmt) {
-	c02CondDefs = map[string]string{}
+// once-defined locals `x := expr` of a function body, as source text
+func c02LocalDefs(fset *token.FileSet, body ast.Node) map[string]ast.Expr {
+	defs, count := map[string]ast.Expr{}, map[string]int{}
 	ast.Inspect(body, func(n ast.Node) bool {
 		as, ok := n.(*ast.AssignStmt)
-		if !ok || as.Tok != token.DEFINE || len(as.Lhs) != 1 || len(as.Rhs) != 1 {
+		if !ok || len(as.Lhs) != 1 || len(as.Rhs) != 1 {
 			return true
 		}
-		id, ok := as.Lhs[0].(*ast.Ident)
-		if !ok {
-			return true
-		}
-		switch as.Rhs[0].(type) {
-		case *ast.BinaryExpr, *ast.UnaryExpr, *ast.ParenExpr:
-			c02CondDefs[id.Name] = c02Src(fset, as.Rhs[0])
-		}
-		return true
-	})
-}
-
-func c02Cond(fset *token.FileSet, e ast.Expr) string {
-	if id, ok := e.(*ast.Ident); ok {
-		if d, ok := c02CondDefs[id.Name]; ok {
-			return d
-		}
-	}
-	return c02Src(fset, e)
-}
-
-// rows: walk a block; remember the last call assigned to `patch`; emit a row at `return patch, T, err`.
-func c02Rows(fset *token.FileSet, stmts []ast.Stmt, conds []string, last string, out *[]c02Row) {
-	for _, s := range stmts {
-		switch x := s.(type) {
-		case *ast.AssignStmt:
-			if len(x.Lhs) > 0 && len(x.Rhs) == 1 {
-				if id, ok := x.Lhs[0].(*ast.Ident); ok && id.Name == "patch" {
-					if c, ok := x.Rhs[0].(*ast.CallExpr); ok {
-						last = c02Call(fset, c)
-					}
-				}
-			}
-		case *ast.ReturnStmt:
-			if len(x.Results) == 3 {
-				if id, ok := x.Results[0].(*ast.Ident); ok && id.Name == "patch" {
-					*out = append(*out, c02Row{append([]string{}, conds...), last, c02Src(fset, x.Results[1])})
-				}
-			}
-		case *ast.IfStmt:
-			c := c02Cond(fset, x.Cond)
-			c02Rows(fset, x.Body.List, append(append([]string{}, conds...), c), last, out)
-			if x.Else != nil {
-				if b, ok := x.Else.(*ast.BlockStmt); ok {
-					c02Rows(fset, b.List, append(append([]string{}, conds...), "!("+c+")"), last, out)
-				}
-			}
-		case *ast.BlockStmt:
-			c02Rows(fset, x.List, conds, last, out)
-		}
-	}
-}
-
-// calls of the given selector / function names inside a node, in source order
-func c02Calls(fset *token.FileSet, n ast.Node, names ...string) []string {
-	var out []string
-	ast.Inspect(n, func(x ast.Node) bool {
-		c, ok := x.(*ast.CallExpr)
-		if !ok {
-			return true
-		}
-		fn := c02Src(fset, c.Fun)
-		for _, want := range names {
-			if fn == want {
-				out = append(out, c02Call(fset, c))
+		if id, ok := as.Lhs[0].(*ast.Ident); ok {
+			count[id.Name]++
+			if as.Tok == token.DEFINE {
+				defs[id.Name] = as.Rhs[0]
 			}
 		}
 		return true
 	})
-	return out
+	for k := range defs {
+		if count[k] != 1 {
+			delete(defs, k)
+		}
+	}
+	return defs
+}
+
+func c02Resolve(fset *token.FileSet, x ast.Expr, defs map[string]ast.Expr, depth int) string {
+	switch t := x.(type) {
+	case *ast.Ident:
+		if d, ok := defs[t.Name]; ok && depth < 4 {
+			return c02Resolve(fset, d, defs, depth+1)
+		}
+	case *ast.SelectorExpr:
+		return c02Resolve(fset, t.X, defs, depth) + "." + t.Sel.Name
+	}
+	return c02Src(fset, x)
 }
 
 func genC02Patch(repo string) (string, error) {
-	f, fset, err := parseFile(repo, "pkg/kube/client.go")
+	fset := token.NewFileSet()
+	dir := filepath.Join(repo, "pkg/kube")
+	ents, err := os.ReadDir(dir)
 	if err != nil {
 		return "", err
 	}
-	cp, ur, up := c02Func(f, "createPatch"), c02Func(f, "updateResource"), c02Func(f, "update")
-	if cp == nil || ur == nil || up == nil {
-		return "", fmt.Errorf("createPatch / updateResource / update not found in pkg/kube/client.go")
-	}
-	var b strings.Builder
-	b.WriteString("Definition create_patch_params : list string := " + hx.CoqStrList(c02Params(cp)) + ".\n")
-	b.WriteString("Definition update_resource_params : list string := " + hx.CoqStrList(c02Params(ur)) + ".\n\n")
-
-	// <x>Data, err := json.Marshal(<obj>)
-	var srcs []string
-	liveSrc := c02NoCall
-	ast.Inspect(cp.Body, func(x ast.Node) bool {
-		as, ok := x.(*ast.AssignStmt)
-		if !ok || len(as.Lhs) == 0 || len(as.Rhs) != 1 {
-			return true
-		}
-		id, ok := as.Lhs[0].(*ast.Ident)
-		c, ok2 := as.Rhs[0].(*ast.CallExpr)
-		if !ok || !ok2 {
-			return true
-		}
-		switch fn := c02Src(fset, c.Fun); {
-		case fn == "json.Marshal" && len(c.Args) == 1 && strings.HasSuffix(id.Name, "Data"):
-			srcs = append(srcs, hx.CoqPair(hx.CoqStr(id.Name), hx.CoqStr(c02Src(fset, c.Args[0]))))
-		case id.Name == "currentObj":
-			liveSrc = c02Call(fset, c)
-		}
-		return true
-	})
-	b.WriteString("Definition marshal_sources : list (string * string) := " + hx.CoqList(srcs) + ".\n")
-	b.WriteString("Definition current_obj_source : string * list string := " + liveSrc + ".\n\n")
-
-	var rows []c02Row
-	c02CollectCondDefs(fset, cp.Body)
-	c02Rows(fset, cp.Body.List, nil, c02NoCall, &rows)
-	it := make([]string, len(rows))
-	for i, r := range rows {
-		it[i] = fmt.Sprintf("(%s,\n   %s,\n   %s)", hx.CoqStrList(r.Conds), r.Call, hx.CoqStr(r.Type))
-	}
-	b.WriteString("Definition create_patch_rows : list (list string * (string * list string) * string) :=\n  [" + strings.Join(it, ";\n   ") + "].\n\n")
-
-	// updateResource: if force { helper.Replace(...) } else { createPatch(...) ... helper.Patch(...) }
-	var forceCalls, patchCalls []string
-	forceCond := ""
-	for _, s := range ur.Body.List {
-		ifs, ok := s.(*ast.IfStmt)
-		if !ok {
+	funcs, methods := map[string]*ast.FuncDecl{}, map[string]*ast.FuncDecl{}
+	var names []string
+	for _, en := range ents {
+		if !strings.HasSuffix(en.Name(), ".go") || strings.HasSuffix(en.Name(), "_test.go") || strings.HasPrefix(en.Name(), "zz_verif") {
 			continue
 		}
-		if els, ok := ifs.Else.(*ast.BlockStmt); ok && forceCond == "" {
-			forceCond = c02Src(fset, ifs.Cond)
-			forceCalls = c02Calls(fset, ifs.Body, "helper.Replace", "helper.Patch", "createPatch")
-			patchCalls = c02Calls(fset, els, "helper.Replace", "helper.Patch", "createPatch")
-		}
+		names = append(names, en.Name())
 	}
-	b.WriteString("Definition update_resource_cond : string := " + hx.CoqStr(forceCond) + ".\n")
-	b.WriteString("Definition update_resource_force : list (string * list string) := " + hx.CoqList(forceCalls) + ".\n")
-	b.WriteString("Definition update_resource_patch : list (string * list string) := " + hx.CoqList(patchCalls) + ".\n\n")
-
-	var entries []string
-	for _, name := range []string{"Update", "UpdateThreeWayMerge"} {
-		if fd := c02Func(f, name); fd != nil {
-			for _, c := range c02Calls(fset, fd.Body, "c.update") {
-				entries = append(entries, hx.CoqPair(hx.CoqStr(name), c))
+	sort.Strings(names)
+	for _, n := range names {
+		f, err := parser.ParseFile(fset, filepath.Join(dir, n), nil, 0)
+		if err != nil {
+			return "", err
+		}
+		for _, d := range f.Decls {
+			if fd, ok := d.(*ast.FuncDecl); ok && fd.Body != nil {
+				if fd.Recv == nil {
+					funcs[fd.Name.Name] = fd
+				} else if _, dup := methods[fd.Name.Name]; !dup || n == "client.go" {
+					methods[fd.Name.Name] = fd
+				}
 			}
 		}
 	}
-	b.WriteString("Definition update_entries : list (string * (string * list string)) := " + hx.CoqList(entries) + ".\n")
-	b.WriteString("Definition update_params : list string := " + hx.CoqStrList(c02Params(up)) + ".\n")
-	b.WriteString("Definition update_calls : list (string * list string) := " +
-		hx.CoqList(c02Calls(fset, up.Body, "original.Get", "updateResource", "original.Difference", "createResource", "deleteResource")) + ".\n")
+	// always a well-formed table: what cannot be found or read becomes PUnknown rows / empty lists, which no
+	// obligation accepts
+	ur, up := funcs["updateResource"], methods["update"]
+	var b strings.Builder
+	b.WriteString("From Helm Require Import Engine.PatchEvents.\n\n")
+
+	// the traces of updateResource for the 8 valuations
+	b.WriteString("(* (force, target unstructured or CRD, threeWayMergeForUnstructured) -> traces *)\n")
+	b.WriteString("Definition update_resource_traces : list ((bool * bool * bool) * list (list pev)) :=\n  [")
+	var params []string
+	if ur != nil {
+		params = c02Params(ur)
+	}
+	first := true
+	for _, force := range []bool{false, true} {
+		for _, unstr := range []bool{false, true} {
+			for _, tw := range []bool{false, true} {
+				ev := &c02Evaluator{fset: fset, funcs: funcs, unstr: unstr}
+				ev.computeEffectful()
+				st := &c02State{env: map[string]c02V{}}
+				for i, pn := range params {
+					switch i {
+					case 3:
+						st.env[pn] = c02V{K: "bool", B: force}
+					case 4:
+						st.env[pn] = c02V{K: "bool", B: tw}
+					default:
+						st.env[pn] = c02V{K: "param", N: i}
+					}
+				}
+				var traces []string
+				if ur == nil || len(params) != 5 {
+					traces = []string{hx.CoqList([]string{"PUnknown " + hx.CoqStr("updateResource not found or not of 5 parameters")})}
+				} else {
+					for _, o := range ev.block(st, ur.Body.List) {
+						traces = append(traces, hx.CoqList(o.st.trace))
+					}
+				}
+				if !first {
+					b.WriteString(";\n   ")
+				}
+				first = false
+				b.WriteString(fmt.Sprintf("((%s, %s, %s),\n    %s)", hx.CoqBool(force), hx.CoqBool(unstr), hx.CoqBool(tw), hx.CoqList(traces)))
+			}
+		}
+	}
+	b.WriteString("].\n\n")
+
+	// update(): its call of updateResource, locals resolved; the visitor it runs in
+	var callArgs, upParams []string
+	visitor := []string{"", ""}
+	var upBody ast.Node = &ast.BlockStmt{}
+	defs := map[string]ast.Expr{}
+	if up != nil {
+		upBody, upParams, defs = up.Body, c02Params(up), c02LocalDefs(fset, up.Body)
+	}
+	ast.Inspect(upBody, func(n ast.Node) bool {
+		c, ok := n.(*ast.CallExpr)
+		if !ok {
+			return true
+		}
+		switch fn := c02Src(fset, c.Fun); {
+		case fn == "updateResource" && callArgs == nil:
+			for _, a := range c.Args {
+				callArgs = append(callArgs, c02Resolve(fset, a, defs, 0))
+			}
+		case strings.HasSuffix(fn, ".Visit") && len(c.Args) == 1:
+			if fl, ok := c.Args[0].(*ast.FuncLit); ok && len(fl.Type.Params.List) > 0 && len(fl.Type.Params.List[0].Names) > 0 {
+				if visitor[0] == "" {
+					visitor = []string{strings.TrimSuffix(fn, ".Visit"), fl.Type.Params.List[0].Names[0].Name}
+				}
+			}
+		}
+		return true
+	})
+	b.WriteString("Definition update_params : list string := " + hx.CoqStrList(upParams) + ".\n")
+	b.WriteString("Definition update_visitor : string * string := " + hx.CoqPair(hx.CoqStr(visitor[0]), hx.CoqStr(visitor[1])) + ".\n")
+	b.WriteString("Definition update_call : list string := " + hx.CoqStrList(callArgs) + ".\n")
+
+	var entries []string
+	for _, name := range []string{"Update", "UpdateThreeWayMerge"} {
+		if fd := methods[name]; fd != nil {
+			ast.Inspect(fd.Body, func(n ast.Node) bool {
+				if c, ok := n.(*ast.CallExpr); ok && c02Src(fset, c.Fun) == "c.update" {
+					args := make([]string, len(c.Args))
+					ldefs := c02LocalDefs(fset, fd.Body)
+					for i, a := range c.Args {
+						args[i] = c02Resolve(fset, a, ldefs, 0)
+					}
+					entries = append(entries, hx.CoqPair(hx.CoqStr(name), hx.CoqPair(hx.CoqStrList(c02Params(fd)), hx.CoqStrList(args))))
+				}
+				return true
+			})
+		}
+	}
+	b.WriteString("Definition update_entries : list (string * (list string * list string)) := " + hx.CoqList(entries) + ".\n")
 	return b.String(), nil
 }
